@@ -101,6 +101,13 @@ def _rewrite_block(body: list[ast.stmt], st: _Pass) -> list[ast.stmt]:
             b = ast.copy_location(ast.Return(value=e.orelse), s)
             out.append(ast.copy_location(ast.If(test=e.test, body=[a], orelse=[b]), s))
             st.changed = True
+        elif isinstance(s, ast.Return) and isinstance(s.value, ast.Call) and isinstance(s.value.func, ast.IfExp):
+            # `return (A if c else B)(args)`: the callee is chosen first, then the arguments
+            e = s.value.func
+            ca, cb = clone(s.value), clone(s.value)
+            ca.func, cb.func = e.body, e.orelse
+            out.append(ast.copy_location(ast.If(test=e.test, body=[ast.copy_location(ast.Return(value=ca), s)], orelse=[ast.copy_location(ast.Return(value=cb), s)]), s))
+            st.changed = True
         elif isinstance(s, ast.Assign) and isinstance(s.value, ast.IfExp) and len(s.targets) == 1:
             e = s.value
             a = ast.copy_location(ast.Assign(targets=[clone(s.targets[0])], value=e.body), s)
@@ -149,6 +156,52 @@ def _rewrite_block(body: list[ast.stmt], st: _Pass) -> list[ast.stmt]:
                 del body[k + 1]
                 st.changed = True
                 continue
+        k += 1
+    # N13: `v = L; if v: return v; return R`  ->  `return L or R`   (`if not v` -> `L and R`)
+    k = 0
+    while k + 2 < len(body):
+        a, c, r = body[k], body[k + 1], body[k + 2]
+        if (isinstance(a, ast.Assign) and len(a.targets) == 1 and isinstance(a.targets[0], ast.Name) and isinstance(c, ast.If) and not c.orelse and len(c.body) == 1
+                and isinstance(c.body[0], ast.Return) and isinstance(c.body[0].value, ast.Name) and c.body[0].value.id == a.targets[0].id and isinstance(r, ast.Return) and r.value is not None
+                and not any(isinstance(x, ast.Name) and x.id == a.targets[0].id for x in ast.walk(r.value))):
+            v = a.targets[0].id
+            op: ast.boolop | None = None
+            if isinstance(c.test, ast.Name) and c.test.id == v:
+                op = ast.Or()
+            elif isinstance(c.test, ast.UnaryOp) and isinstance(c.test.op, ast.Not) and isinstance(c.test.operand, ast.Name) and c.test.operand.id == v:
+                op = ast.And()
+            if op is not None:
+                body[k:k + 3] = [ast.copy_location(ast.Return(value=ast.copy_location(ast.BoolOp(op=op, values=[a.value, r.value]), a.value)), a)]
+                st.changed = True
+                continue
+        k += 1
+    # N14: `if c: v = A else: v = B` ; `return f(v)`  ->  `if c: return f(A) else: return f(B)`
+    #      for plain A / B (names, attributes, constants: reading them is pure) and v read once
+    k = 0
+    while k + 1 < len(body):
+        c, r = body[k], body[k + 1]
+        if isinstance(c, ast.If) and c.body and c.orelse and isinstance(r, ast.Return) and r.value is not None:
+            la, lb = c.body[-1], c.orelse[-1]
+            plain = lambda e: isinstance(e, (ast.Name, ast.Constant)) or (isinstance(e, ast.Attribute) and isinstance(e.value, ast.Name))  # noqa: E731
+            if (isinstance(la, ast.Assign) and isinstance(lb, ast.Assign) and len(la.targets) == 1 and len(lb.targets) == 1 and isinstance(la.targets[0], ast.Name)
+                    and isinstance(lb.targets[0], ast.Name) and la.targets[0].id == lb.targets[0].id and plain(la.value) and plain(lb.value)):
+                v = la.targets[0].id
+                uses = [x for x in ast.walk(r.value) if isinstance(x, ast.Name) and x.id == v]
+                if len(uses) == 1 and isinstance(uses[0].ctx, ast.Load):
+                    def _sub(val: ast.expr) -> ast.Return:
+                        new = clone(r)
+
+                        class _S(ast.NodeTransformer):
+                            def visit_Name(self, n: ast.Name) -> ast.AST:
+                                return clone(val) if n.id == v else n
+
+                        return ast.fix_missing_locations(_S().visit(new))
+
+                    c.body[-1] = _sub(la.value)
+                    c.orelse[-1] = _sub(lb.value)
+                    del body[k + 1]
+                    st.changed = True
+                    continue
         k += 1
     # N10: a `continue` that ends a loop body (directly, or as the whole handler of a try that
     #      ends it) does nothing
@@ -333,8 +386,37 @@ def _inline_single_use(fn: ast.AST, st: _Pass, strict: bool = False) -> None:
         # a pure value can be repeated anywhere)
         if len(uses) == 1 and not pure(asg.value) and [x for x in enclosing(uses[0], loopish) if x not in enclosing(asg, loopish)]:
             continue
-        # a value that awaits / yields stays where it is
-        if any(isinstance(x, (ast.Await, ast.Yield, ast.YieldFrom, ast.NamedExpr)) for x in ast.walk(asg.value)):
+        # a value that awaits / yields stays where it is - unless its single use is in the very
+        # next statement and nothing else with an effect is evaluated there (the other operands
+        # are plain reads, the only calls are the ones the value is an argument of)
+        if any(isinstance(x, (ast.Yield, ast.YieldFrom, ast.NamedExpr)) for x in ast.walk(asg.value)):
+            continue
+        if any(isinstance(x, ast.Await) for x in ast.walk(asg.value)):
+            if len(uses) != 1:
+                continue
+            ust = uses[0]
+            anc: list[ast.AST] = []
+            while ust is not None and not isinstance(ust, ast.stmt):
+                anc.append(ust)
+                ust = getattr(ust, "_parent", None)
+            holder_ = getattr(asg, "_parent", None)
+            nxt_ok = False
+            for f_ in ("body", "orelse", "finalbody"):
+                seq_ = getattr(holder_, f_, None)
+                if isinstance(seq_, list) and asg in seq_:
+                    i_ = seq_.index(asg)
+                    nxt_ok = i_ + 1 < len(seq_) and seq_[i_ + 1] is ust
+            if not nxt_ok or not isinstance(ust, (ast.Return, ast.Expr, ast.Assign)):
+                continue
+            others = [y for y in ast.walk(ust) if isinstance(y, (ast.Call, ast.Await, ast.Yield, ast.YieldFrom, ast.Lambda, ast.ListComp, ast.GeneratorExp, ast.SetComp, ast.DictComp)) and y not in anc]
+            if others or any(isinstance(y, ast.Call) and not all(isinstance(z, (ast.Name, ast.Attribute, ast.Load)) for z in ast.walk(y.func)) for y in anc):
+                continue
+        # between the binding and its use no name that the value reads may be rebound: the
+        # value would mean something else where it is re-written (any mode)
+        reads_ = {x.id for x in ast.walk(asg.value) if isinstance(x, ast.Name)}
+        own_ = {id(x) for x in ast.walk(asg.value)}  # (a comprehension's own targets are not rebinding)
+        last_u = max(uses, key=lambda u: (u.lineno, u.col_offset))
+        if any(isinstance(x, ast.Name) and isinstance(x.ctx, (ast.Store, ast.Del)) and x.id in reads_ and id(x) not in own_ and (asg.lineno, asg.col_offset) < (x.lineno, x.col_offset) < (last_u.lineno, last_u.col_offset) for x in ast.walk(fn)):
             continue
 
         # a value computed inside a try body stays inside it (its exceptions are handled there)
